@@ -15,7 +15,8 @@
 (*          a wildcard socket has several); the reply must come from there    *)
 (*   oob    the place the receive path keeps the session data (which local    *)
 (*          address the last datagram arrived on) while reading               *)
-(*   pool   set of free buffers                                               *)
+(*   pool   buffer -> how many times it lies in the pool (0 or 1; a buffer    *)
+(*          that got there twice will be handed to two readers at once)       *)
 (*   blen   buffer -> how many octets a read into it can take: the length of  *)
 (*          the slice that was put into the pool (Cap unless KeepLen)         *)
 (*   buf    buffer -> the request octets it holds: [who, n] = the first n     *)
@@ -42,8 +43,10 @@ CONSTANTS Clients,      \* e.g. 1..3
           Cap,          \* size of a receive buffer (Server.UDPSize); no request is larger
           Swapped,      \* FALSE: decode, then release (as server.go does); TRUE: release, then decode
           KeepLen,      \* FALSE: the whole buffer goes back to the pool; TRUE: the slice cut to the last datagram's length
-          SessShared    \* FALSE: every task owns a copy of its session data; TRUE: the session points into the receive
+          SessShared,   \* FALSE: every task owns a copy of its session data; TRUE: the session points into the receive
                         \* path's scratch space, which the next datagram overwrites
+          DoubleRelease \* FALSE: every path releases the buffer once; TRUE: the path for datagrams that are not handled
+                        \* (undecodable, refused by the policy, too short) releases it twice
 
 Nothing == [who |-> 0, n |-> 0]
 Whole(x, c) == [who |-> c, n |-> x.size[c]]          \* the request of client c, all of it
@@ -51,7 +54,7 @@ ReplyFor(req) == <<100 + req.who, req.n>>
 NoAddr == 0
 
 XInit == [cst |-> [c \in Clients |-> "idle"], net |-> [c \in Clients |-> 0], size |-> [c \in Clients |-> 0],
-          via |-> [c \in Clients |-> NoAddr], oob |-> NoAddr, pool |-> Buffers, blen |-> [b \in Buffers |-> Cap],
+          via |-> [c \in Clients |-> NoAddr], oob |-> NoAddr, junk |-> 0, pool |-> [b \in Buffers |-> 1], blen |-> [b \in Buffers |-> Cap],
           buf |-> [b \in Buffers |-> Nothing], tasks |-> <<>>, rnet |-> {}, got |-> [c \in Clients |-> <<>>], saw |-> <<>>]
 
 CanSend(x, c) == x.cst[c] = "idle"
@@ -63,21 +66,35 @@ Resend(x, c)    == [x EXCEPT !.net[c] = @ + 1]
 
 \* a read takes as many octets as the slice it is given has room for
 Taken(x, b, c) == IF x.size[c] < x.blen[b] THEN x.size[c] ELSE x.blen[b]
-CanRecv(x, b, c) == b \in x.pool /\ x.net[c] > 0
+InPool(x, b) == x.pool[b] > 0
+Free(x) == { b \in Buffers : InPool(x, b) }
+CanRecv(x, b, c) == InPool(x, b) /\ x.net[c] > 0
 Recv(x, b, c) ==
-  [x EXCEPT !.pool = @ \ {b}, !.buf[b] = [who |-> c, n |-> Taken(x, b, c)], !.net[c] = @ - 1, !.oob = x.via[c],
+  [x EXCEPT !.pool[b] = @ - 1, !.buf[b] = [who |-> c, n |-> Taken(x, b, c)], !.net[c] = @ - 1, !.oob = x.via[c],
             !.tasks = Append(@, [from |-> c, b |-> b, stage |-> "recv", req |-> Nothing, local |-> x.via[c]])]
+
+\* Datagrams that never reach a handler -- undecodable, refused or ignored by the accept policy, shorter than a
+\* header -- come from anybody (sender 0) and take a buffer like every other; their path releases it too.
+Junk == 0
+SendJunk(x) == [x EXCEPT !.junk = @ + 1]
+CanRecvJunk(x, b) == InPool(x, b) /\ x.junk > 0
+RecvJunk(x, b) ==
+  [x EXCEPT !.pool[b] = @ - 1, !.buf[b] = Nothing, !.junk = @ - 1,
+            !.tasks = Append(@, [from |-> Junk, b |-> b, stage |-> "recv", req |-> Nothing, local |-> NoAddr])]
+CanJunkRelease(x, t) == t \in 1..Len(x.tasks) /\ x.tasks[t].stage = "recv" /\ x.tasks[t].from = Junk
+JunkRelease(x, t) ==
+  [x EXCEPT !.pool[x.tasks[t].b] = @ + (IF DoubleRelease THEN 2 ELSE 1), !.blen[x.tasks[t].b] = Cap, !.tasks[t].stage = "done"]
 
 StageIs(x, t, st) == t \in 1..Len(x.tasks) /\ x.tasks[t].stage = st
 
-CanDecode(x, t) == StageIs(x, t, IF Swapped THEN "freed" ELSE "recv")
+CanDecode(x, t) == StageIs(x, t, IF Swapped THEN "freed" ELSE "recv") /\ x.tasks[t].from # Junk
 Decode(x, t) ==
   [x EXCEPT !.tasks[t].req = x.buf[x.tasks[t].b],
             !.tasks[t].stage = IF Swapped THEN "released" ELSE "decoded"]
 
-CanRelease(x, t) == StageIs(x, t, IF Swapped THEN "recv" ELSE "decoded")
+CanRelease(x, t) == StageIs(x, t, IF Swapped THEN "recv" ELSE "decoded") /\ x.tasks[t].from # Junk
 Release(x, t) ==
-  [x EXCEPT !.pool = @ \cup {x.tasks[t].b},
+  [x EXCEPT !.pool[x.tasks[t].b] = @ + 1,
             !.blen[x.tasks[t].b] = IF KeepLen THEN x.buf[x.tasks[t].b].n ELSE Cap,
             !.tasks[t].stage = IF Swapped THEN "freed" ELSE "released"]
 
@@ -103,5 +120,7 @@ ClientGetsOwn(x)  == \A c \in Clients : x.cst[c] = "done" => x.got[c] = <<ReplyF
 NoMixing(x) == HandlerSeesOwn(x) /\ ClientGetsOwn(x)
 
 \* a buffer is never in the pool while a task still has to read it (what makes NoMixing hold)
-BufferOwned(x) == \A t \in 1..Len(x.tasks) : x.tasks[t].stage = "recv" => x.tasks[t].b \notin x.pool
+BufferOwned(x) == \A t \in 1..Len(x.tasks) : x.tasks[t].stage = "recv" => ~InPool(x, x.tasks[t].b)
+\* whatever path released it: a buffer lies in the pool at most once
+PoolOnce(x) == \A b \in Buffers : x.pool[b] <= 1
 =============================================================================
